@@ -323,7 +323,7 @@ func c15Hinted(r *fw.Rec, e *csEntry, name, text string, class string) bool {
 }
 
 func c15(c *fw.Ctx) {
-	c.Rule("registry invariants over every value/name/alias; every registered set and alias with every single-byte code point (exhaustive) and sampled double-byte ranges through hinted writer -> reader with the ECI header confirmed by an independent parse of the raw codewords; non-representable text must be refused; unhinted UTF-8 incl. adversarial byte statistics and long payloads whose first non-ASCII character comes after 500..2049 bytes; ECI numbers 0..1023 plus sampled (thorough: all 0..999999) in every designator length form through the bit-stream parser; decode-side CHARACTER_SET hint on undesignated byte segments (incl. payloads starting with byte-order-mark, UTF-8- and Shift_JIS-looking byte pairs); distinct = distinct (class, charset, text / ECI number)")
+	c.Rule("registry invariants over every value/name/alias; every registered set and alias with every single-byte code point (exhaustive) and sampled double-byte ranges (plus every two-byte code the codec round-trips: Shift_JIS in byte and Kanji mode in both tiers, Big5 / GB18030 / EUC-KR all in thorough and every fourth lead byte in quick) through hinted writer -> reader, half of the reads under a decode-side CHARACTER_SET hint naming some other set (string or codec value), which a designated symbol must ignore, with the ECI header confirmed by an independent parse of the raw codewords; non-representable text must be refused; unhinted UTF-8 incl. adversarial byte statistics and long payloads whose first non-ASCII character comes after 500..2049 bytes; ECI numbers 0..1023 plus sampled (thorough: all 0..999999) in every designator length form through the bit-stream parser; decode-side CHARACTER_SET hint on undesignated byte segments (incl. payloads starting with byte-order-mark, UTF-8- and Shift_JIS-looking byte pairs); distinct = distinct (class, charset, text / ECI number)")
 	c.Assume("'representable' = the golang.org/x/text codec encodes the text and decodes it back unchanged; text that encodes but does not round trip (codec aliases) is don't-care; ECI header demanded only for byte-mode symbols (DESIGN C15)")
 	c.Run("registry", func(r *fw.Rec) { c15Registry(r) })
 
